@@ -24,6 +24,7 @@ logging.getLogger('isotp').setLevel(logging.CRITICAL + 1)
 logging.getLogger('isotp').addHandler(logging.NullHandler())
 logging.getLogger('isotp').propagate = False
 
+import vclock  # noqa: F401,E402  (clock trampolines go in before the library binds anything)
 import isotp  # noqa: E402  (PYTHONPATH=/repo)
 from vclock import VClock  # noqa: E402
 
